@@ -151,6 +151,18 @@ pub fn generate(rng: &mut Rng, tier: Tier) -> Plan {
         // size, and size thresholds are a classic place for a slip
         _ => rng.usize_in(13, if tier == Tier::Quick { 18 } else { 24 }),
     };
+    // a market whose quotes all sit in one far decade; half of these are chains as long as
+    // keeps every cross within 1e+-140 (see below), so that crosses beyond 1e+-100 occur
+    let far_pick: Option<f64> = if rng.chance(0.03) {
+        Some(*rng.pick(&[10.0, -10.0, 12.0, -12.0, 25.0, -25.0, 30.0, -30.0, 8.0, -8.0]))
+    } else {
+        None
+    };
+    let far_chain = far_pick.is_some() && rng.chance(0.5);
+    let n = match (far_pick, far_chain) {
+        (Some(e), true) => ((140.0 / (e.abs() + 0.5)).floor() as usize + 1).clamp(2, nmax),
+        _ => n,
+    };
     // mostly ISO-like codes; sometimes any legal 3-byte code: digits, punctuation, quotes,
     // backslashes, control characters, non-ASCII and titlecase letters, near-identical codes
     const EXOTIC: &[&str] = &[
@@ -167,7 +179,7 @@ pub fn generate(rng: &mut Rng, tier: Tier) -> Plan {
     rng.shuffle(&mut names);
     let ccys: Vec<String> = names[..n].iter().map(|s| s.to_string()).collect();
     let outsider = names[n].to_string();
-    let shape = rng.below(3);
+    let shape = if far_chain { 1 } else { rng.below(3) };
     let mut quotes = Vec::new();
     let settle = if rng.chance(0.5) {
         Some(gen_settle_day(rng))
@@ -176,22 +188,10 @@ pub fn generate(rng: &mut Rng, tier: Tier) -> Plan {
     };
     let tod = if settle.is_some() { gen_tod(rng) } else { None };
     let float_only = rng.chance(0.3);
-    let far_decade: Option<f64> = if rng.chance(0.02) {
-        // rateslib's reciprocal rule squares its argument: keep every cross within 1e+-140
-        // so that no intermediate of ANY evaluation order under- or overflows
-        let choices: Vec<f64> = [10.0, -10.0, 12.0, -12.0, 25.0, -25.0, 30.0, -30.0, 8.0, -8.0]
-            .iter()
-            .cloned()
-            .filter(|e: &f64| (e.abs() + 0.5) * (n as f64 - 1.0) <= 140.0)
-            .collect();
-        if choices.is_empty() {
-            None
-        } else {
-            Some(*rng.pick(&choices))
-        }
-    } else {
-        None
-    };
+    // rateslib's reciprocal rule squares its argument: keep every cross within 1e+-140 so
+    // that no intermediate of ANY evaluation order under- or overflows
+    let far_decade: Option<f64> =
+        far_pick.filter(|e| (e.abs() + 0.5) * (n as f64 - 1.0) <= 140.0);
     for i in 1..n {
         let parent = match shape {
             0 => rng.below(i as u64) as usize,
